@@ -11,6 +11,7 @@ import (
 	"regexp"
 	"sort"
 	"strings"
+	"time"
 
 	"github.com/awslabs/ar-go-tools/analysis/config"
 	"github.com/awslabs/ar-go-tools/analysis/defers"
@@ -377,8 +378,20 @@ func main() {
 		return
 	}
 	mismatches := 0
+	timeouts := 0
 	for i, c := range cases {
-		res := defers.AnalyzeFunction(c.fn, logger)
+		res, finished := analyzeWithTimeout(c.fn, logger, 20*time.Second)
+		if !finished {
+			timeouts++
+			content := fmt.Sprintf("function: %s\n%s\ncfg: %s\nmodel: %s\nreal : AnalyzeFunction did not return within 20 s\n", c.fn.String(), c.src, cfgString(c), outLines[i])
+			rep.Fail("defers-diverge:"+cfgString(c), "defers.AnalyzeFunction does not terminate on this function (the model converges: "+outLines[i]+")", []byte(content), false)
+			if timeouts >= 3 {
+				rep.Notes = append(rep.Notes, "aborted after 3 non-terminating functions")
+				rep.Finish()
+				return
+			}
+			continue
+		}
 		bounded, sets := realResult(c.fn, res)
 		b := "0"
 		if bounded {
@@ -419,6 +432,19 @@ var stdPkgs = []string{"fmt", "os", "strings", "bytes", "bufio", "io", "sort", "
 	"net/http", "net/url", "regexp", "text/template", "html/template", "database/sql", "crypto/tls", "archive/zip", "archive/tar",
 	"compress/gzip", "go/parser", "go/types", "math/big", "path/filepath", "os/exec", "sync", "context", "time", "log", "flag",
 	"encoding/csv", "encoding/gob", "mime/multipart", "net/mail", "net/rpc", "image/png", "testing", "reflect", "runtime/pprof"}
+
+// analyzeWithTimeout runs the real analysis in a goroutine; a run that does not come back is
+// reported (the goroutine cannot be killed; the driver aborts after a few of them).
+func analyzeWithTimeout(fn *ssa.Function, logger *config.LogGroup, d time.Duration) (defers.Results, bool) {
+	ch := make(chan defers.Results, 1)
+	go func() { ch <- defers.AnalyzeFunction(fn, logger) }()
+	select {
+	case r := <-ch:
+		return r, true
+	case <-time.After(d):
+		return defers.Results{}, false
+	}
+}
 
 func bucket(n int) int {
 	for _, b := range []int{1, 2, 4, 8, 16, 32, 64} {
